@@ -186,20 +186,127 @@ func Discharge(jobs []*VCJob, dir string, stage1, stage2 int, allSolvers bool) {
 	}
 }
 
-// modelOf reruns a solver that said sat with (get-model) to obtain the counterexample.
-func modelOf(j *VCJob) string {
+// modelOf reruns a solver that said sat and evaluates the unit's watch terms (parameters and "watch" clauses) in the model.
+func modelOf(j *VCJob) map[string]string {
 	txt, err := os.ReadFile(j.File)
-	if err != nil {
-		return ""
+	if err != nil || j.Unit == nil || len(j.Unit.Watches) == 0 {
+		return nil
 	}
 	f := strings.TrimSuffix(j.File, ".smt2") + "_model.smt2"
-	body := strings.Replace(string(txt), "(set-logic ALL)", "(set-logic ALL)\n(set-option :produce-models true)", 1)
-	os.WriteFile(f, []byte(body+"(get-model)\n"), 0644)
-	defer os.Remove(f)
+	body := "(set-option :produce-models true)\n" + string(txt)
+	out := map[string]string{}
 	by := strings.TrimSuffix(j.By, "#7")
 	if _, ok := solvers[by]; !ok {
 		by = "z3-new"
 	}
-	_, out := runSolver(context.Background(), solvers[by], f, 20)
+	// one get-value per term, so that a term the solver cannot evaluate does not spoil the others
+	var b strings.Builder
+	b.WriteString(body)
+	for _, w := range j.Unit.Watches {
+		b.WriteString("(get-value (" + w[1] + "))\n")
+	}
+	os.WriteFile(f, []byte(b.String()), 0644)
+	defer os.Remove(f)
+	_, o := runSolver(context.Background(), solvers[by], f, 20)
+	lines := splitTop(o)
+	// first element is the check-sat answer
+	k := 0
+	for _, l := range lines {
+		l = strings.TrimSpace(l)
+		if l == "sat" || l == "" {
+			continue
+		}
+		if k < len(j.Unit.Watches) {
+			// l is "((term value))"
+			val := l
+			if strings.HasPrefix(l, "((") && strings.HasSuffix(l, "))") {
+				inner := l[2 : len(l)-2]
+				t := j.Unit.Watches[k][1]
+				if strings.HasPrefix(inner, t) {
+					val = strings.TrimSpace(inner[len(t):])
+				} else if i := lastTopLevelSpace(inner); i >= 0 {
+					val = strings.TrimSpace(inner[i:])
+				}
+			}
+			out[j.Unit.Watches[k][0]] = val
+			k++
+		}
+	}
 	return out
+}
+
+// splitTop splits solver output into top-level s-expressions / atoms.
+func splitTop(s string) []string {
+	var out []string
+	depth, start := 0, -1
+	inStr := false
+	for i := 0; i < len(s); i++ {
+		c := s[i]
+		if inStr {
+			if c == '"' {
+				inStr = false
+			}
+			continue
+		}
+		switch {
+		case c == '"':
+			inStr = true
+			if depth == 0 && start < 0 {
+				start = i
+			}
+		case c == '(':
+			if depth == 0 && start < 0 {
+				start = i
+			}
+			depth++
+		case c == ')':
+			depth--
+			if depth == 0 && start >= 0 {
+				out = append(out, s[start:i+1])
+				start = -1
+			}
+		case c == '\n' || c == ' ' || c == '\t':
+			if depth == 0 && start >= 0 {
+				out = append(out, s[start:i])
+				start = -1
+			}
+		default:
+			if depth == 0 && start < 0 {
+				start = i
+			}
+		}
+	}
+	if start >= 0 {
+		out = append(out, s[start:])
+	}
+	return out
+}
+
+func lastTopLevelSpace(s string) int {
+	depth := 0
+	inStr := false
+	last := -1
+	for i := 0; i < len(s); i++ {
+		c := s[i]
+		if inStr {
+			if c == '"' {
+				inStr = false
+			}
+			continue
+		}
+		switch c {
+		case '"':
+			inStr = true
+		case '(':
+			depth++
+		case ')':
+			depth--
+		case ' ':
+			if depth == 0 {
+				last = i
+			}
+		}
+	}
+	// the value is the last top-level element: find the space before it
+	return last
 }
